@@ -124,3 +124,10 @@ check(
     "Provenance of draws is a sufficient condition for independence from the global seed; estimators whose randomness lives inside scikit-learn (TSNE, MLP, KMeans L2) are outside; stubs of C08/C13/C17 reused; small shapes.",
     "DESIGN.md 3.C03",
 )
+check(
+    "C04",
+    "bounded symbolic execution (SX, z3 LRA+UF) of the real dispatch code on a 3-row symbolic batch against all its permutations, single rows, a sub-batch and repeated calls; inner models uninterpreted row-wise functions; concrete pickle round trips",
+    "For PiecewiseRegressor.predict, PiecewiseClassifier.predict_proba, transform_bins (every routing incl. a bucket unseen at training time), DecisionTreeLogisticRegression.predict_proba/decision_path, KMeansL1L2 (L1) predict/transform, ClassifierAfterKMeans, IntervalRegressor predict_all/predict/predict_sorted, SkBaseTransformLearner.transform (4 methods) and PiecewiseTreeRegressor's leaf regressions: the output of a row is the same in every order of the batch, alone, in a sub-batch and on a repeated call. clone_with_fitted_parameters gives identical outputs, does not follow a later retrain, and a second clone after the retrain has the new state. Really fitted estimators (8 of them, incl. compiled criteria) give identical outputs after a pickle round trip.",
+    "Inner models are row-wise pure by construction (stubs); pickle is exercised concretely, not symbolically; 3-row batches; ConstraintKMeans' balanced predictions are batch dependent by design and excluded.",
+    "DESIGN.md 3.C04",
+)
